@@ -28,6 +28,9 @@ def _clf(d, table, gen=7, K=2, validate=False):
     return c
 
 
+LAST = {}
+
+
 def _call(d, name, seed, X, y, cand):
     P = pl.pool()
     table = d.inputs.get("__clf__")
@@ -35,8 +38,8 @@ def _call(d, name, seed, X, y, cand):
         return P.RandomSampling(random_state=seed).query(X, y, candidates=cand, batch_size=1, return_utilities=True)
     if name.startswith("UncertaintySampling"):
         method = name.split("[")[1][:-1]
-        return P.UncertaintySampling(method=method, random_state=seed).query(
-            X, y, _clf(d, table), fit_clf=False, candidates=cand, batch_size=1, return_utilities=True)
+        LAST["qs"] = P.UncertaintySampling(method=method, random_state=seed)
+        return LAST["qs"].query(X, y, _clf(d, table), fit_clf=False, candidates=cand, batch_size=1, return_utilities=True)
     if name == "QueryByCommittee":
         ens = [_clf(d, table, gen=1), _clf(d, table, gen=2)]
         return P.QueryByCommittee(random_state=seed).query(X, y, ens, fit_ensemble=False, candidates=cand, batch_size=1,
@@ -101,6 +104,7 @@ def sc_representation(d, name, n):
         return
     seed = d.integer("seed", 0, 2 ** 31 - 2)
     o_none = _call(d, name, seed, X, y, None)
+    qs_none = LAST.get("qs")
     o_idx = _call(d, name, seed, X, y, list(unl))
     u0, u1 = _row0(d, o_none), _row0(d, o_idx)
     for i in range(n):
@@ -129,6 +133,13 @@ def sc_representation(d, name, n):
     if len(unl) >= 2:
         for sub in itertools.combinations(unl, len(unl) - 1):
             o_sub = _call(d, name, seed, X, y, list(sub))
+            if name.startswith("UncertaintySampling") and qs_none is not None:
+                # index candidates: utilities have one entry per sample, so the same number of draws was taken for
+                # tie-breaking - the generators the two calls derived from (seed, y) are then in the same state, i.e. the
+                # derived generator does not depend on how many candidates were named
+                from harness import streamlib as sl
+                d.prove(sl.eq_value(qs_none.random_state_, LAST["qs"].random_state_), "derived_generator_independent_of_candidates",
+                        info=dict(subset=list(sub)))
             us = _row0(d, o_sub)
             for i in sub:
                 d.prove(_eq_or_both_nan(d, us[i], u0[i]), "restriction_keeps_utilities", info=dict(subset=list(sub), sample=i))
